@@ -6,6 +6,11 @@ import netprobe, vlib
 FORM_TARGETS = ["/form-get-method", "/form-url-encoded-enctype-post-method", "/form-multipart-enctype-post-method", "/file-upload/initiate"]
 
 
+def zero_write(opts):
+    """does the scripted writer return Ok(0) at some call?  (acc=...,0,...)"""
+    return any(x.startswith("acc=") and "0" in x[4:].split(",") for x in opts)
+
+
 class P(ServeProp):
     ID = "C04"
     THEOREMS = ["C04_always_answers", "C04_unparseable_is_400", "C04_handler_always_answered", "C04_handler_error_is_400", "C04_execute_never_panics",
@@ -92,6 +97,21 @@ class P(ServeProp):
                             except OSError: pass
                     if len(fails) >= 3:
                         break
+                # connections that are reset before the server accepts them (SIGSTOP, connect + RST, SIGCONT): the process survives them
+                # and the next connection is answered
+                if not fails:
+                    netprobe.stop_rst_cont(s, 3)
+                    got = None
+                    for deadline in (3.0, 8.0):
+                        got = s.request(valid[0], timeout=deadline)
+                        if got:
+                            break
+                    if not s.alive() or not got:
+                        sig = "server-process-died" if not s.alive() else "connection-not-answered"
+                        fails.append(("%s after connections that were reset before the server accepted them (-t=%d)" % (sig, N), sig, None,
+                                      {"threads": N, "how": "tools/netprobe.py: stop_rst_cont(server, 3) then Server.request(GET /a.txt)", "received": (got or b"")[:200].decode("latin-1")}))
+                    else:
+                        answered += 1
                 if len(samples) < 2:
                     samples.append({"threads": N, "inputs": len(inputs)})
             finally:
@@ -171,7 +191,7 @@ class P(ServeProp):
             elif r < 0.86:
                 out.append(gs.serve_case(rnd, kind="serve", opts=("app=err " + opts).strip(), meta="handler=1"))
             elif r < 0.94:
-                f = rnd.choice(["rerr=1", "werr=0", "werr=1", "ferr=1", "acc=1", "acc=7,1000000", "acc=100"])
+                f = rnd.choice(["rerr=1", "werr=0", "werr=1", "ferr=1", "acc=1", "acc=7,1000000", "acc=100", "acc=100,0", "acc=0", "acc=1,1,0"])       # a zero in the list: the writer returns Ok(0) from that call on
                 out.append(gs.serve_case(rnd, kind="serve", opts=(f + " " + opts).strip(), meta="fault=1"))
             else:
                 out.append(gs.serve_case(rnd, kind=kind, opts=opts))
@@ -179,7 +199,7 @@ class P(ServeProp):
 
     def canon(self, line, out):
         o = gs.parse_case(line)["opts"]
-        if any(x.startswith(("rerr", "werr", "ferr")) for x in o):
+        if any(x.startswith(("rerr", "werr", "ferr")) for x in o) or zero_write(o):
             return "SKIP"          # transport faults are not modelled; the oracle below still applies
         return httpcanon.canon_serve(out)
 
@@ -189,8 +209,8 @@ class P(ServeProp):
         if out.startswith("PANIC"):
             return "panic"
         o = gs.parse_case(line)["opts"]
-        if any(x.startswith(("werr", "rerr")) for x in o) :
-            return None
+        if any(x.startswith(("werr", "rerr")) for x in o) or zero_write(o):
+            return None          # the transport failed: no panic, no crash, no time-out is all that is asked
         raw = self.raw(out)
         if not raw:
             return "nothing-written"
